@@ -10,15 +10,15 @@ K_CONTEXT = [
     {'crate': 'p3-circuit', 'harness': 'c19_set_witness_contract', 'profile': 'release'},
 ]
 PROPS = {
-    'C02': {'units': ['expr', 'lower', 'opt', 'fuse', 'fvalid', 'optm', 'run19'], 'kani': K_ANALYSIS + [{'crate': 'p3-circuit', 'harness': 'c02_allocator_monotone'}]},
+    'C02': {'units': ['expr', 'lower', 'opt', 'fuse', 'fvalid', 'optm', 'run19'], 'kani': K_ANALYSIS + [{'crate': 'p3-circuit', 'harness': 'c02_allocator_monotone'}], 'exclude': r'H_run_is_the_first_execution_of_the_op_list'},
     'C03': {'units': ['opt', 'fuse', 'fvalid', 'optm'], 'kani': K_ANALYSIS},
     'C19': {'units': ['run19', 'pexec'], 'kani': K_CONTEXT, 'only': {'pexec': r'resolve_private_data|execute\[base_dispatch|RecomposeExecutor::execute'}},
     'C20': {'units': ['gad', 'quot', 'fri', 'periodic', 'fquery'], 'kani': [], 'only': {'fri': r'evaluate_polynomial|circuit_exp_by_constant|lemma_', 'fquery': r'final_query_point'}},
     'C07': {'units': ['fri', 'shape', 'fold', 'fchain', 'fquery', 'evpts', 'openin', 'onehot'], 'kani': [], 'only': {'shape': r'verify_fri_circuit'}, 'exclude': r'possible (bit shift|arithmetic)'},
     'C05': {'units': ['chal', 'coef', 'bind'], 'kani': [], 'exclude': r'canonical_width', 'only': {'coef': r'select_path', 'bind': r'add_poseidon[12]_perm_for_challenger(_base)?\.ensures\[(frame|shape|succeeds_when_enabled)\]'}},
     'C06': {'units': ['bind', 'pchain', 'pexec'], 'kani': [], 'only': {'pexec': r'compact_header|limb_ctl_enabled|preprocess_flags'}},
-    'C17': {'units': ['cache', 'rcplug', 'backcfg'], 'kani': []},
-    'C10': {'units': ['sched', 'tracegen', 'ptrace', 'vrfy', 'extkind'], 'kani': []},
+    'C17': {'units': ['cache', 'rcplug', 'backcfg', 'order'], 'kani': [], 'only': {'order': r'lane_resolution'}},
+    'C10': {'units': ['sched', 'tracegen', 'ptrace', 'vrfy', 'extkind', 'order'], 'kani': [], 'only': {'order': r'lane_resolution'}},
     'C18': {'units': ['dsu', 'order', 'pphase', 'fvalid', 'iterord', 'hashord'], 'kani': []},
     'C14': {'units': ['pack', 'pack2', 'pack3', 'pubin'], 'kani': []},
     'C12': {'units': ['bits', 'chal', 'coef', 'rcair', 'prep'], 'kani': [], 'only': {'chal': r'canonical_width', 'prep': r'operand_[ac]_takes_part_in_the_witness_bus'}},
